@@ -62,8 +62,57 @@ GENERAL_MIX = [("planted", 2), ("noisy", 4), ("chimeric", 4), ("indel", 3), ("do
                ("symmetric-chimera", 0)]
 
 
+_SAMPLE = {}
+
+
+def sample_data():
+    """The repository's own sample data set (real Bionano molecules against one 59-Mb contig), read with the oracle parser."""
+    if "maps" not in _SAMPLE:
+        import os
+        from . import repo
+        d = os.path.join(repo.REPO, "data", "NA12878_BSPQI")
+        try:
+            refs = fmt.parse_cmap(open(os.path.join(d, "alignmolvref_contig24_r.cmap")).read())
+            qs = fmt.parse_cmap(open(os.path.join(d, "alignmolvref_contig24_q.cmap")).read())
+            where = {}
+            for rec in fmt.parse_xmap(open(os.path.join(d, "alignmolvref_contig24.xmap")).read())["records"]:
+                where[int(rec["QryContigID"])] = (float(rec["RefStartPos"]), float(rec["RefEndPos"]))
+            _SAMPLE["maps"] = ([{"id": m["id"], "length": m["length"], "pos": m["pos"]} for m in refs.values() if m["pos"]],
+                               [{"id": m["id"], "length": m["length"], "pos": m["pos"], "at": where.get(m["id"])}
+                                for m in qs.values() if len(m["pos"]) >= 8])
+        except OSError:
+            _SAMPLE["maps"] = None
+    return _SAMPLE["maps"]
+
+
+def gen_real(rng):
+    """A world cut out of the sample data: the real contig (a 1.5-4 Mb stretch of it) and 4-8 real molecules."""
+    refs, qs = sample_data()
+    ref = refs[0]
+    n = len(ref["pos"])
+    span = rng.randint(200, 450)
+    anchor = rng.choice([q for q in qs if q.get("at")] or [None])
+    if anchor is not None:        # put the stretch where the molecules are
+        i0 = min(range(n), key=lambda j: abs(ref["pos"][j] - anchor["at"][0]))
+        i = max(0, min(n - span, i0 - rng.randint(20, 150)))
+    else:
+        i = rng.randint(0, n - span)
+    pos = [W.r1(p - ref["pos"][i] + 1000.0) for p in ref["pos"][i:i + span]]
+    r = {"id": ref["id"], "length": W.r1(pos[-1] + 5000.0), "pos": pos}
+    lo, hi = ref["pos"][i], ref["pos"][i + span - 1]
+    inside = [q for q in qs if q.get("at") and lo <= q["at"][0] and q["at"][1] <= hi]     # molecules RefAligner placed here
+    others = [q for q in qs if q not in inside]
+    queries = rng.sample(inside, min(len(inside), rng.randint(3, 7))) + rng.sample(others, rng.randint(0, 2))
+    return {"filesets": {"base": {"refs": [r], "queries": sorted([W.strip(q) for q in queries], key=lambda q: q["id"]),
+                                  "r_layout": W.layout(rng, 1), "q_layout": W.layout(rng, len(queries))}},
+            "config": W.swarm_config(rng, aggressive=False) if rng.random() < 0.5 else {}, "truth": {},
+            "meta": {"ref_family": "real", "families": ["real"]}}
+
+
 def gen_general(rng, nq=(6, 12), mix=None, ref_family=None, lattice_cfg=False, plain_layout=False, aggressive=True,
                 nrefs=None):
+    if ref_family is None and nrefs is None and rng.random() < 0.07 and sample_data():
+        return gen_real(rng)
     fam = ref_family or rng.choice(["random", "random", "random", "lattice", "repetitive", "repetitive"])
     refs = W.make_refs(rng, fam, nrefs or rng.choice([1, 2, 2, 3]))
     for r in refs:
